@@ -1,4 +1,221 @@
 import A2lVerif.Model.Sort
 /-! helper lemmas for C14 / C15 -/
 namespace A2l.Srt
+
+/-! ## `assignSeq` -/
+
+@[simp] theorem length_assignSeq (u : Nat) (l : List Elem) : (assignSeq u l).length = l.length := by
+  induction l generalizing u with
+  | nil => rfl
+  | cons e es ih => simp [assignSeq, ih]
+
+theorem map_key_assignSeq (u : Nat) (l : List Elem) : (assignSeq u l).map Elem.key = l.map Elem.key := by
+  induction l generalizing u with
+  | nil => rfl
+  | cons e es ih => simp [assignSeq, ih, Elem.key]
+
+theorem map_name_assignSeq (u : Nat) (l : List Elem) : (assignSeq u l).map (·.name) = l.map (·.name) := by
+  induction l generalizing u with
+  | nil => rfl
+  | cons e es ih => simp [assignSeq, ih]
+
+theorem map_uid_assignSeq (u : Nat) (l : List Elem) :
+    (assignSeq u l).map (·.uid) = List.range' u l.length := by
+  induction l generalizing u with
+  | nil => rfl
+  | cons e es ih => simp [assignSeq, ih, List.range'_succ]
+
+theorem assignSeq_assignSeq (u v : Nat) (l : List Elem) : assignSeq u (assignSeq v l) = assignSeq u l := by
+  induction l generalizing u v with
+  | nil => rfl
+  | cons e es ih => simp [assignSeq, ih]
+
+/-! ## `nameLe` -/
+
+theorem nameLe_trans (a b c : Elem) : nameLe a b = true → nameLe b c = true → nameLe a c = true := by
+  simp only [nameLe, decide_eq_true_eq]
+  exact String.le_trans
+
+theorem nameLe_total (a b : Elem) : (nameLe a b || nameLe b a) = true := by
+  simp only [nameLe, Bool.or_eq_true, decide_eq_true_eq]
+  exact String.le_total _ _
+
+theorem pairwise_nameLe_mergeSort (l : List Elem) :
+    (l.mergeSort nameLe).Pairwise (fun a b => nameLe a b = true) :=
+  List.pairwise_mergeSort nameLe_trans nameLe_total l
+
+theorem pairwise_nameLe_iff (l : List Elem) :
+    l.Pairwise (fun a b => nameLe a b = true) ↔ (l.map (·.name)).Pairwise (· ≤ ·) := by
+  rw [List.pairwise_map]
+  simp [nameLe]
+
+theorem pairwise_nameLe_assignSeq (u : Nat) (l : List Elem)
+    (h : l.Pairwise (fun a b => nameLe a b = true)) :
+    (assignSeq u l).Pairwise (fun a b => nameLe a b = true) := by
+  rw [pairwise_nameLe_iff] at h ⊢
+  rwa [map_name_assignSeq]
+
+theorem mergeSort_assignSeq_mergeSort (u : Nat) (l : List Elem) :
+    (assignSeq u (l.mergeSort nameLe)).mergeSort nameLe = assignSeq u (l.mergeSort nameLe) :=
+  List.mergeSort_of_pairwise (pairwise_nameLe_assignSeq u _ (pairwise_nameLe_mergeSort l))
+
+/-! ## `sortSection` -/
+
+/-- the elements of a section in the documented order -/
+def canonSec (s : Section) : List Elem :=
+  match s.kind with
+  | .byName => s.elems.mergeSort nameLe
+  | _ => s.elems
+
+theorem canonical_eq (m : Module) : canonical m = m.sections.flatMap canonSec := rfl
+
+theorem sortSection_kind (u : Nat) (s : Section) : (sortSection u s).1.kind = s.kind := by
+  unfold sortSection; split <;> rfl
+
+theorem sortSection_key (u : Nat) (s : Section) :
+    (sortSection u s).1.elems.map Elem.key = (canonSec s).map Elem.key := by
+  unfold sortSection canonSec
+  split <;> rename_i hk <;> simp only [hk]
+  · simp [Elem.key, Function.comp_def]
+  · exact map_key_assignSeq _ _
+  · exact map_key_assignSeq _ _
+
+theorem canonSec_perm (s : Section) : (canonSec s).Perm s.elems := by
+  unfold canonSec
+  split
+  · exact List.mergeSort_perm _ _
+  · exact List.Perm.refl _
+
+theorem sortSection_perm (u : Nat) (s : Section) :
+    ((sortSection u s).1.elems.map Elem.key).Perm (s.elems.map Elem.key) := by
+  rw [sortSection_key]
+  exact (canonSec_perm s).map _
+
+theorem sortSection_le (u : Nat) (s : Section) : u ≤ (sortSection u s).2 := by
+  unfold sortSection; split <;> simp
+
+/-- uids handed out in one section: strictly increasing, inside `[u, next)` -/
+theorem sortSection_uids (u : Nat) (s : Section) (hwf : s.kind = .single → s.elems.length ≤ 1) :
+    ((sortSection u s).1.elems.map (·.uid)).Pairwise (· < ·) ∧
+    ∀ x ∈ (sortSection u s).1.elems.map (·.uid), u ≤ x ∧ x < (sortSection u s).2 := by
+  unfold sortSection
+  split <;> rename_i hk
+  · have hl := hwf hk
+    match h : s.elems, hl with
+    | [], _ => simp
+    | [e], _ => simp
+  · simp only [map_uid_assignSeq]
+    refine ⟨List.pairwise_lt_range', ?_⟩
+    intro x hx
+    simp [List.mem_range'_1] at hx
+    omega
+  · simp only [map_uid_assignSeq, List.length_mergeSort]
+    refine ⟨List.pairwise_lt_range', ?_⟩
+    intro x hx
+    simp [List.mem_range'_1] at hx
+    omega
+
+theorem sortSection_idem (u : Nat) (s : Section) :
+    sortSection u (sortSection u s).1 = sortSection u s := by
+  obtain ⟨k, es⟩ := s
+  cases k
+  · simp [sortSection, Function.comp_def]
+  · simp [sortSection, assignSeq_assignSeq]
+  · simp [sortSection, mergeSort_assignSeq_mergeSort, assignSeq_assignSeq]
+
+theorem sortSection_names (u : Nat) (s : Section) (hk : s.kind = .byName) :
+    (sortSection u s).1.elems.Pairwise (fun a b => a.name ≤ b.name) := by
+  have h := pairwise_nameLe_assignSeq u _ (pairwise_nameLe_mergeSort s.elems)
+  unfold sortSection
+  simp only [hk]
+  simpa [nameLe] using h
+
+/-! ## `sortSections` -/
+
+theorem sortSections_cons (u : Nat) (s : Section) (ss : List Section) :
+    sortSections u (s :: ss) = (sortSection u s).1 :: sortSections (sortSection u s).2 ss := rfl
+
+@[simp] theorem length_sortSections (u : Nat) (ss : List Section) :
+    (sortSections u ss).length = ss.length := by
+  induction ss generalizing u with
+  | nil => rfl
+  | cons s ss ih => simp [sortSections_cons, ih]
+
+theorem sortSections_getElem (u : Nat) (ss : List Section) (i : Nat) (h : i < ss.length)
+    (h' : i < (sortSections u ss).length) :
+    ((sortSections u ss)[i]).kind = (ss[i]).kind ∧
+    (((sortSections u ss)[i]).elems.map Elem.key).Perm ((ss[i]).elems.map Elem.key) := by
+  induction ss generalizing u i with
+  | nil => simp at h
+  | cons s ss ih =>
+    cases i with
+    | zero => exact ⟨sortSection_kind u s, sortSection_perm u s⟩
+    | succ i =>
+      simp only [sortSections_cons, List.getElem_cons_succ]
+      exact ih _ i (by simpa using h) (by simpa [sortSections_cons] using h')
+
+theorem sortSections_key (u : Nat) (ss : List Section) :
+    ((sortSections u ss).flatMap (·.elems)).map Elem.key = (ss.flatMap canonSec).map Elem.key := by
+  induction ss generalizing u with
+  | nil => rfl
+  | cons s ss ih =>
+    simp only [sortSections_cons, List.flatMap_cons, List.map_append, sortSection_key, ih]
+
+theorem sortSections_uids (u : Nat) (ss : List Section)
+    (hwf : ∀ s ∈ ss, s.kind = .single → s.elems.length ≤ 1) :
+    (((sortSections u ss).flatMap (·.elems)).map (·.uid)).Pairwise (· < ·) ∧
+    ∀ x ∈ ((sortSections u ss).flatMap (·.elems)).map (·.uid), u ≤ x := by
+  induction ss generalizing u with
+  | nil => simp [sortSections]
+  | cons s ss ih =>
+    have h1 := sortSection_uids u s (hwf s (by simp))
+    have h2 := ih (sortSection u s).2 (fun t ht => hwf t (by simp [ht]))
+    have hle := sortSection_le u s
+    simp only [sortSections_cons, List.flatMap_cons, List.map_append, List.pairwise_append,
+      List.mem_append]
+    refine ⟨⟨h1.1, h2.1, ?_⟩, ?_⟩
+    · intro a ha b hb
+      have := (h1.2 a ha).2
+      have := h2.2 b hb
+      omega
+    · intro x hx
+      rcases hx with hx | hx
+      · exact (h1.2 x hx).1
+      · have := h2.2 x hx
+        omega
+
+theorem sortSections_idem (u : Nat) (ss : List Section) :
+    sortSections u (sortSections u ss) = sortSections u ss := by
+  induction ss generalizing u with
+  | nil => rfl
+  | cons s ss ih =>
+    rw [sortSections_cons, sortSections_cons, sortSection_idem, ih]
+
+theorem sortSections_names (u : Nat) (ss : List Section) (s : Section)
+    (hs : s ∈ sortSections u ss) (hk : s.kind = .byName) :
+    s.elems.Pairwise (fun a b => a.name ≤ b.name) := by
+  induction ss generalizing u with
+  | nil => simp [sortSections] at hs
+  | cons t ss ih =>
+    rw [sortSections_cons, List.mem_cons] at hs
+    rcases hs with rfl | hs
+    · rw [sortSection_kind] at hk
+      exact sortSection_names u t hk
+    · exact ih _ hs
+
+/-! ## the writer -/
+
+theorem writerLe_of_lt (a b : Elem) (ha : a.uid ≠ 0) (hb : b.uid ≠ 0) (h : a.uid < b.uid) :
+    writerLe a b = true := by
+  have hne : a.uid ≠ b.uid := by omega
+  simp [writerLe, ha, hb, hne]
+  omega
+
+theorem mergeSort_writerLe_of_increasing (l : List Elem)
+    (h : (l.map (·.uid)).Pairwise (· < ·)) (h0 : ∀ e ∈ l, e.uid ≠ 0) :
+    l.mergeSort writerLe = l := by
+  apply List.mergeSort_of_pairwise
+  rw [List.pairwise_map] at h
+  exact h.imp_of_mem (fun ha hb hlt => writerLe_of_lt _ _ (h0 _ ha) (h0 _ hb) hlt)
+
 end A2l.Srt
